@@ -54,6 +54,7 @@ func (rt *relayTimer) OnTimer() {
 	items, id, isOriginator := rt.items, rt.id, rt.isOriginator
 	rt.markTimerInactive()
 	rt.pool.trigger(items, id, isOriginator)
+	verifPoint("relayTimer.OnTimer.done", id)
 }
 
 func newRelayTimerPool(trigger relayTimerTrigger, verify bool) *relayTimerPool {
